@@ -491,7 +491,23 @@ ADDENDA4 = {
     "C19": ("; every third text also as bytes to both loaders (UTF-8, data behind END, "
             "Latin-1, a stray undecodable byte at five positions)", ""),
 }
-for _k, (_a, _b) in list(ADDENDA2.items()) + list(ADDENDA3.items()) + list(ADDENDA4.items()):
+ADDENDA5 = {
+    "C04": ("; bulk gaps: 1200-3000 comments in a row, 20 000 blanks or line ends, one "
+            "100 kB comment, in five positions under every parser", ""),
+    "C05": ("; random cases also judged in generated layouts (white space and comments "
+            "between the faulted tokens); documents with multi-line strings where every "
+            "token is followed in turn by each of six separators", ""),
+    "C09": ("; an ordinarily opened text stream (universal newlines) as one more way; labels "
+            "with dash continuations (positions counted in the shortened text)", ""),
+    "C13": ("; pvl.dumps / pvl.dump with the kept encoder plus option keywords between the "
+            "calls", ""),
+    "C14": ("", " Instances of subclasses of datetime, date and time are written too."),
+    "C17": ("", " Curated texts include spellings that casefold() maps onto keywords and "
+            "lower() / upper() do not."),
+    "C19": ("; every third text also with eight grammar= / decoder= keyword combinations on "
+            "both loads()", ""),
+}
+for _k, (_a, _b) in list(ADDENDA2.items()) + list(ADDENDA3.items()) + list(ADDENDA4.items()) + list(ADDENDA5.items()):
     _o = ADDENDA.get(_k, ("", ""))
     ADDENDA[_k] = (_o[0] + _a, _o[1] + _b)
 
